@@ -12,3 +12,5 @@ open MtailVerif.C20
 #print axioms MtailVerif.C20.dispatch_skeletons
 #print axioms MtailVerif.C20.f_vm_vm_skeletons
 #print axioms MtailVerif.C20.f_runtime_runtime_skeletons
+#print axioms MtailVerif.C20.dispatcher_sends_under_lock
+#print axioms MtailVerif.C20.sending_after_unlock_is_unsafe
